@@ -231,26 +231,31 @@ FoldRaises(c) == LET r == RunP(P0(<<Ret(Bin(FoldOps[c.op], FoldVals[c.a], FoldVa
 ScLeaf(k, base) == CASE k = 1 -> Def("a", I(base + 1)) [] k = 2 -> Def("b", I(base + 2)) [] k = 3 -> Def("len", I(base + 3))
                      [] k = 4 -> Asg("a", Bin("+", Id("a"), I(100))) [] k = 5 -> Asg("b", Bin("+", Id("b"), I(100)))
                      [] k = 6 -> Log(Id("a")) [] k = 7 -> Log(Id("b")) [] k = 8 -> Log(C1(Id("typeName"), Id("len")))
+                     [] k = 9 -> Var("b")          \* declaration without a value: the variable is undefined, whatever its slot held before
 \* a body of up to two leaf statements: <<>>, <<k>>, <<k1, k2>>
 ScBody(q, base) == IF q[1] = 0 THEN <<>> ELSE IF q[2] = 0 THEN <<ScLeaf(q[1], base)>> ELSE <<ScLeaf(q[1], base), ScLeaf(q[2], base + 5)>>
-ScBodies == {<<0, 0>>} \cup {<<k, 0>> : k \in 1..8} \cup {<<k1, k2>> : k1 \in 1..8, k2 \in 1..8}
+ScBodies == {<<0, 0>>} \cup {<<k, 0>> : k \in 1..9} \cup {<<k1, k2>> : k1 \in 1..9, k2 \in 1..9}
 ScPre == {<<0, 0>>, <<1, 0>>, <<2, 0>>, <<3, 0>>, <<1, 2>>, <<8, 3>>}
 ScMid == {<<0, 0>>, <<1, 0>>, <<6, 0>>, <<4, 0>>}
 ScPost == {<<6, 0>>, <<7, 0>>, <<8, 0>>, <<6, 7>>}
-ScWrap(kind, mid, inner) ==
+\* tail: statements after the inner container, still inside the outer one (its variables may get slots the inner block used)
+ScWrap(kind, mid, inner, tail) ==
   CASE kind = 1 -> <<If(T, mid \o inner, <<>>)>>
     [] kind = 2 -> <<Def("f", Fn0(mid \o inner)), ExprS(C0(Id("f")))>>
-    [] kind = 3 -> <<Def("f", Fn0(mid \o <<If(T, inner, <<>>)>>)), ExprS(C0(Id("f")))>>
-    [] kind = 4 -> <<If(T, mid \o <<Def("f", Fn0(inner)), ExprS(C0(Id("f")))>>, <<>>)>>
-    [] kind = 5 -> <<Def("f", Fn0(mid \o <<Def("g", Fn0(inner)), ExprS(C0(Id("g")))>>)), ExprS(C0(Id("f")))>>
+    [] kind = 3 -> <<Def("f", Fn0(mid \o <<If(T, inner, <<>>)>> \o tail)), ExprS(C0(Id("f")))>>
+    [] kind = 4 -> <<If(T, mid \o <<Def("f", Fn0(inner)), ExprS(C0(Id("f")))>> \o tail, <<>>)>>
+    [] kind = 5 -> <<Def("f", Fn0(mid \o <<Def("g", Fn0(inner)), ExprS(C0(Id("g")))>> \o tail)), ExprS(C0(Id("f")))>>
     [] kind = 6 -> <<For(<<Def("i", I(0))>>, Bin("<", Id("i"), I(2)), <<Inc("i")>>, mid \o inner)>>
     [] kind = 7 -> <<Def("f", Fn0(mid \o inner)), ExprS(C0(Id("f"))), ExprS(C0(Id("f")))>>
-ScProg(c) == ScBody(c.pre, 10) \o ScWrap(c.kind, ScBody(c.mid, 20), ScBody(c.inner, 30)) \o ScBody(c.post, 50) \o <<Ret(I(0))>>
-ScIdx == [f : {"scope"}, kind : 1..7, pre : ScPre, mid : ScMid, inner : ScBodies, post : ScPost]
+ScTail == {<<0, 0>>, <<9, 7>>, <<2, 7>>, <<9, 6>>}
+ScProg(c) == ScBody(c.pre, 10) \o ScWrap(c.kind, ScBody(c.mid, 20), ScBody(c.inner, 30), ScBody(c.tail, 40)) \o ScBody(c.post, 50) \o <<Ret(I(0))>>
+ScIdx == [f : {"scope"}, kind : {1, 2, 6, 7}, pre : ScPre, mid : ScMid, inner : ScBodies, tail : {<<0, 0>>}, post : ScPost]
+         \cup [f : {"scope"}, kind : {3, 4, 5}, pre : ScPre, mid : ScMid, inner : ScBodies, tail : ScTail, post : ScPost]
 \* only programs every name of which is declared where it is used (the others are compile errors)
 \* two declarations of one name in the same scope are a compile error ("redeclared in this block")
-ScDefs(q) == {q[i] : i \in {j \in 1..2 : q[j] \in 1..3}}
-ScNoRedecl(c) == /\ ~(c.inner[1] \in 1..3 /\ c.inner[1] = c.inner[2])
+ScDeclName(k) == CASE k = 1 -> "a" [] k \in {2, 9} -> "b" [] k = 3 -> "len" [] OTHER -> ""
+ScDefs(q) == {ScDeclName(q[i]) : i \in 1..2} \ {""}
+ScNoRedecl(c) == /\ ~(ScDeclName(c.inner[1]) # "" /\ ScDeclName(c.inner[1]) = ScDeclName(c.inner[2]))
                  /\ (c.kind \in {1, 2, 6, 7} => ScDefs(c.mid) \cap ScDefs(c.inner) = {})
 ScValid(c) == ScNoRedecl(c) /\ LET r == RunP(P0(ScProg(c))) IN ~(r.o[1] = "thr" /\ r.o[2].name \in {"unresolved", "unmodelled-op", "unmodelled-builtin-call", "TypeError"})
 
